@@ -334,6 +334,13 @@ def rules(rep, m):
     from . import siftrules
     siftrules.check_sifts(rep, rs, m)
 
+    # R-C12-7 ------------------------------------------------------------
+    r7 = rep.rule("R-C12-7", "the position query agrees with the delivery order only if it looks at every queued object: the scan "
+                  "in cmb_priorityqueue_position (and the heap's own pattern scans it relies on) covers exactly the slots "
+                  "1 .. heap_count of the 1-based heap array (shared with R-C02-9)", floor=1)
+    siftrules.check_scans(rep, r7, m, only={"cmb_priorityqueue_position", "cmi_hashheap_pattern_find", "cmi_hashheap_pattern_count",
+                                            "cmi_hashheap_pattern_cancel"})
+
 
 def run(tier="quick"):
     models = common.load_models(tier)
